@@ -81,10 +81,10 @@ func c11Probes(w *World) *probeRun {
 	}
 	pol := Pol{Kind: "PolSuccess", Sub: "alice", Granted: "openid email"}
 	none := Bind{}
-	dp := func() Bind { return Bind{Dpop: validProof(w, 0)} }
+	dp := func() Bind { return Bind{Dpop: cfgValidProof(w, 0)} }
 	cert := Bind{Cert: w.certs[0].H}
-	both := func() Bind { return Bind{Dpop: validProof(w, 0), Cert: w.certs[0].H} }
-	badProof := func() Bind { pr := validProof(w, 0); pr.HtmOK = false; return Bind{Dpop: pr} }
+	both := func() Bind { return Bind{Dpop: cfgValidProof(w, 0), Cert: w.certs[0].H} }
+	badProof := func() Bind { pr := cfgValidProof(w, 0); pr.HtmOK = false; return Bind{Dpop: pr} }
 
 	authorize := func(client int, ps Params) Obs {
 		return p.do(Op{Kind: "Authorize", Client: client, Params: ps, PolicyAvail: true, Pol: pol})
